@@ -14,7 +14,7 @@ T = {
  "C09": ("Coq theorems: primes = RFC formula, g^x mod p with fixed length for all x, agreement, exponent range and provenance", "Coq proof + source constants regenerated into Coq + correspondence with scripted random source"),
  "C10": ("Coq theorems: decrypt . encrypt = id, size law, textbook CBC layout, IV = next source octets, failing source => error, total decryption, key size", "Coq proof over an abstract block cipher + differential correspondence incl. all 256 pad octets"),
  "C11": ("Coq theorems: to/decode transform inverse, soundness for all 2^16 identifiers and attribute shapes, RFC lengths, proposals", "Coq proof by case analysis + exhaustive identifier sweep against the implementation"),
- "C12": ("partial: Coq theorems that every message of the encoding domain reaches a fixed point after one decode/encode step and that canonical datagrams re-encode byte-identically; the image lemma (decoder output lies in the domain) is measured per run with the extracted, proved-sound decision procedure dom_msgb instead of proved", "Coq proof (general round trip + canonical re-encoding) + domain decision evaluated on every accepted input + instance decode.encode.decode = decode"),
+ "C12": ("Coq theorem for every octet string: decode b = Ok m and encode m = Ok b' imply decode b' = Ok (norm m) and encode (norm m) = Ok b' (image lemma: the decoder's output, when re-encodable, lies in the round-trip domain; then the general round trip); canonical datagrams re-encode byte-identically", "Coq proof (image lemma over every payload decoder + general round trip) + accepted mutations / sweeps, domain decision evaluated on every accepted input as a cross-check"),
  "C13": ("Coq theorem: chains with unsupported payloads decode as without them iff none is critical, at any positions", "Coq proof by induction over the chain + exhaustive type-code sweep"),
  "C14": ("Coq theorems: EAP round trip, framing, get . set, setter size rules for all sizes, map-order independence of Marshal", "Coq proof + differential correspondence with full observation of EAP-AKA' state"),
  "C15": ("Coq theorems: code = trunc16 HMAC over the wire form with AT_MAC zeroed, independent of the old value; receiver agreement for canonical packets (partial: non-canonical packets are a known finding)", "Coq proof + correspondence; known finding for re-serialised non-canonical packets"),
